@@ -14,6 +14,8 @@
 EXTENDS J2T, Cut, TraceKit
 
 Trace == ndJsonDeserialize("trace.ndjson")
+\* both skippers accept at least this many containers around a skipped value (their limit is 4096 levels, root object included)
+JsonSkipDepthSafe == 4000
 VARIABLES l, desc
 vars == <<l, desc>>
 Init == l = 1 /\ desc = [structs |-> <<>>, from |-> Ty(0), to |-> Ty(0)]
@@ -55,6 +57,19 @@ Step ==
              \* a well-formed value is skipped entirely
              /\ Chk(spec.ok => (r.ok /\ r.n = spec.n - 1),
                     [tag |-> "MM", i |-> l, ev |-> "Skip", api |-> r.flav, label |-> "SkipLength", exp |-> "", got |-> IF r.ok THEN "wrong-length" ELSE "fails", detail |-> ""])
+        /\ UNCHANGED desc
+     ELSE IF e.ev = "JSkip" THEN
+        \* an unknown member whose value is nested e.depth containers deep, next to the known member "v":7 of struct {1: i64 v}
+        /\ \A j \in 1..Len(e.res) :
+             LET r == e.res[j] IN
+             \* all flavours skip it, or all refuse it (the skippers share one depth limit)
+             /\ Chk((r.st = "ok") = (e.res[1].st = "ok") /\ (r.st = "ok" => r.out = e.res[1].out),
+                    [tag |-> "MM", i |-> l, ev |-> "JSkip", api |-> r.flav, label |-> "SkipAgree", exp |-> e.res[1].flav,
+                     got |-> IF r.st # e.res[1].st THEN r.st ELSE "different-bytes", detail |-> e.shape])
+             \* a skipped member leaves no trace in the output; nesting well below the limit is always skipped
+             /\ Chk(r.st \in {"ok", "err"} /\ (r.st = "ok" => r.out = <<10, 0, 1, 0, 0, 0, 0, 0, 0, 0, 7, 0>>) /\ (e.depth <= JsonSkipDepthSafe => r.st = "ok"),
+                    [tag |-> "MM", i |-> l, ev |-> "JSkip", api |-> r.flav, label |-> "SkippedLeavesNoTrace", exp |-> "ok",
+                     got |-> IF r.st # "ok" THEN r.st ELSE "wrong-thrift-value", detail |-> e.shape])
         /\ UNCHANGED desc
      ELSE IF e.ev = "Enc" THEN
         /\ \A j \in 1..Len(e.res) :
